@@ -1,11 +1,268 @@
 package main
 
-// Structural obligations: facts checked directly on the SSA form (no solver), e.g. dominance of a call.
+import (
+	"fmt"
+	"go/types"
+	"sort"
+	"strings"
+
+	"golang.org/x/tools/go/ssa"
+)
+
+// Structural obligations: facts checked directly on the SSA form (no solver):
+//   structural only-called-from CALLEE :: CALLER, CALLER...      every call site of CALLEE lies in one of the callers
+//   structural locked-send FUNC lock=L unlock=U chan=FIELD         every send on the FIELD channel in FUNC (or in a
+//        closure FUNC creates) is dominated by a call L(k), and a `defer U(k)` with the same key value precedes it
 
 type structOb struct {
 	Name, Clause, Status, Output, Pos string
 }
 
 func (p *Program) structuralChecks(prop string) []structOb {
-	return nil
+	if p.contracts == nil {
+		return nil
+	}
+	var out []structOb
+	for _, sc := range p.contracts.structurals {
+		if !hasProp(sc.Props, prop) {
+			continue
+		}
+		fs := strings.Fields(sc.Text)
+		if len(fs) == 0 {
+			continue
+		}
+		ob := structOb{Name: fmt.Sprintf("%s.structural:%s", sc.Pkg, mangle(sc.Text)), Clause: sc.Text, Pos: fmt.Sprintf("%s:%d", sc.File, sc.Line)}
+		var err error
+		var detail string
+		switch fs[0] {
+		case "only-called-from":
+			detail, err = p.checkOnlyCalledFrom(sc)
+		case "locked-send":
+			detail, err = p.checkLockedSend(sc)
+		default:
+			err = fmt.Errorf("unknown structural clause %q", fs[0])
+		}
+		if err != nil {
+			ob.Status = "structural-failed"
+			ob.Output = err.Error()
+		} else {
+			ob.Status = "structural-ok"
+			ob.Output = detail
+		}
+		out = append(out, ob)
+	}
+	return out
+}
+
+func keyMatches(key, want string) bool {
+	return key == want || strings.HasSuffix(key, "."+want)
+}
+
+func (p *Program) checkOnlyCalledFrom(sc StructuralClause) (string, error) {
+	parts := strings.SplitN(strings.TrimSpace(strings.TrimPrefix(sc.Text, "only-called-from")), "::", 2)
+	if len(parts) != 2 {
+		return "", fmt.Errorf("syntax: only-called-from CALLEE :: CALLER, ...")
+	}
+	callee := strings.TrimSpace(parts[0])
+	var callers []string
+	for _, c := range strings.Split(parts[1], ",") {
+		callers = append(callers, strings.TrimSpace(c))
+	}
+	sites := 0
+	var bad []string
+	for _, fn := range p.allFuncs {
+		for _, b := range fn.Blocks {
+			for _, in := range b.Instrs {
+				ci, ok := in.(ssa.CallInstruction)
+				if !ok {
+					continue
+				}
+				com := ci.Common()
+				hit := false
+				if sc := com.StaticCallee(); sc != nil {
+					for _, n := range calleeNames(sc) {
+						if keyMatches(n, callee) {
+							hit = true
+						}
+					}
+				} else if com.IsInvoke() {
+					if keyMatches(typeKeyShort(com.Value.Type())+"."+com.Method.Name(), callee) {
+						hit = true
+					}
+				}
+				// address taken (passed as a value) also counts as a use
+				if !hit {
+					continue
+				}
+				sites++
+				okCaller := false
+				for _, c := range callers {
+					if keyMatches(funcKey(fn), c) {
+						okCaller = true
+					}
+				}
+				if !okCaller {
+					bad = append(bad, funcKey(fn)+" at "+p.pos(in.Pos()))
+				}
+			}
+		}
+	}
+	for fn := range p.addrTaken {
+		for _, n := range calleeNames(fn) {
+			if keyMatches(n, callee) && p.isPint(fn) {
+				bad = append(bad, "address of "+funcKey(fn)+" is taken (may be called from anywhere)")
+			}
+		}
+	}
+	if sites == 0 {
+		return "", fmt.Errorf("no call site of %s found (renamed?)", callee)
+	}
+	if len(bad) > 0 {
+		sort.Strings(bad)
+		return "", fmt.Errorf("%s is also called from: %s", callee, strings.Join(bad, "; "))
+	}
+	return fmt.Sprintf("%d call sites, all in %v", sites, callers), nil
+}
+
+func (p *Program) checkLockedSend(sc StructuralClause) (string, error) {
+	fs := strings.Fields(sc.Text)
+	if len(fs) < 2 {
+		return "", fmt.Errorf("syntax: locked-send FUNC lock=L unlock=U chan=FIELD")
+	}
+	opts := map[string]string{}
+	for _, f := range fs[2:] {
+		if i := strings.Index(f, "="); i > 0 {
+			opts[f[:i]] = f[i+1:]
+		}
+	}
+	var fn *ssa.Function
+	for k, f := range p.funcByKey {
+		if keyMatches(k, sc.Pkg+"."+fs[1]) || k == sc.Pkg+"."+fs[1] {
+			fn = f
+		}
+	}
+	if fn == nil {
+		return "", fmt.Errorf("function %s not found", fs[1])
+	}
+	var lockCall ssa.Instruction
+	var lockKey ssa.Value
+	var unlockDefer *ssa.Defer
+	for _, b := range fn.Blocks {
+		for _, in := range b.Instrs {
+			if c, ok := in.(*ssa.Call); ok {
+				if sc := c.Common().StaticCallee(); sc != nil && keyMatches(funcKey(sc), opts["lock"]) && lockCall == nil {
+					lockCall = in
+					if len(c.Common().Args) >= 2 {
+						lockKey = c.Common().Args[1]
+					}
+				}
+			}
+			if d, ok := in.(*ssa.Defer); ok {
+				if sc := d.Common().StaticCallee(); sc != nil && keyMatches(funcKey(sc), opts["unlock"]) && unlockDefer == nil {
+					unlockDefer = d
+				}
+			}
+		}
+	}
+	if lockCall == nil {
+		return "", fmt.Errorf("%s does not call %s", fs[1], opts["lock"])
+	}
+	if unlockDefer == nil {
+		return "", fmt.Errorf("%s does not defer %s", fs[1], opts["unlock"])
+	}
+	if len(unlockDefer.Common().Args) < 2 || !sameKey(unlockDefer.Common().Args[1], lockKey) {
+		return "", fmt.Errorf("%s: lock and deferred unlock use different keys", fs[1])
+	}
+	before := func(a, b ssa.Instruction) bool {
+		if a.Block() == b.Block() {
+			return instrIndex(a) < instrIndex(b)
+		}
+		return a.Block().Dominates(b.Block())
+	}
+	if !before(lockCall, unlockDefer) {
+		return "", fmt.Errorf("%s: the unlock is deferred before the lock is taken", fs[1])
+	}
+	// sends on the channel field, in fn or in closures created in fn
+	var sites []ssa.Instruction
+	var scan func(f *ssa.Function, site ssa.Instruction)
+	scan = func(f *ssa.Function, site ssa.Instruction) {
+		for _, b := range f.Blocks {
+			for _, in := range b.Instrs {
+				switch in := in.(type) {
+				case *ssa.Send:
+					if chanIsField(in.Chan, opts["chan"]) {
+						if site != nil {
+							sites = append(sites, site)
+						} else {
+							sites = append(sites, in)
+						}
+					}
+				case *ssa.MakeClosure:
+					s := site
+					if s == nil {
+						s = in
+					}
+					scan(in.Fn.(*ssa.Function), s)
+				}
+			}
+		}
+	}
+	scan(fn, nil)
+	if len(sites) == 0 {
+		return "", fmt.Errorf("%s: no send on the %s channel found", fs[1], opts["chan"])
+	}
+	for _, s := range sites {
+		if !before(lockCall, s) || !before(unlockDefer, s) {
+			return "", fmt.Errorf("%s: a send on %s at %s is not bracketed by lock/deferred unlock", fs[1], opts["chan"], p.pos(s.Pos()))
+		}
+	}
+	return fmt.Sprintf("%d send site(s) bracketed by %s(k) / defer %s(k)", len(sites), opts["lock"], opts["unlock"]), nil
+}
+
+// sameKey: two SSA values denote the same key (same value, or loads of the same local cell, or equal constants).
+func sameKey(a, b ssa.Value) bool {
+	if a == b {
+		return true
+	}
+	if ca, ok := a.(*ssa.Const); ok {
+		if cb, ok := b.(*ssa.Const); ok {
+			return ca.Value != nil && cb.Value != nil && ca.Value.ExactString() == cb.Value.ExactString()
+		}
+	}
+	ua, ok1 := a.(*ssa.UnOp)
+	ub, ok2 := b.(*ssa.UnOp)
+	if ok1 && ok2 && ua.X == ub.X {
+		if al, ok := ua.X.(*ssa.Alloc); ok {
+			// the cell must be assigned exactly once
+			stores := 0
+			for _, r := range *al.Referrers() {
+				if s, ok := r.(*ssa.Store); ok && s.Addr == al {
+					stores++
+				}
+			}
+			return stores == 1
+		}
+	}
+	return false
+}
+
+func chanIsField(v ssa.Value, field string) bool {
+	if u, ok := v.(*ssa.UnOp); ok {
+		if fa, ok := u.X.(*ssa.FieldAddr); ok {
+			if s := structFieldName(fa); s == field {
+				return true
+			}
+		}
+	}
+	return false
+}
+
+func structFieldName(fa *ssa.FieldAddr) string { return fieldNameOf(fa) }
+
+func fieldNameOf(fa *ssa.FieldAddr) string {
+	t := deref(fa.X.Type()).Underlying()
+	if s, ok := t.(*types.Struct); ok {
+		return s.Field(fa.Field).Name()
+	}
+	return ""
 }
